@@ -32,7 +32,10 @@ def run_demo():
         if test not in names and f == rs[0]:
             dst = os.path.join(d, test + ".rs")   # the README renames the file when copying it
         shutil.copy(f, dst); copied.append(dst)
-    rc, o = sh(f"cargo test -p {crate} --test {test} --offline -- --test-threads=1", cwd=W, env=env)
+    feat = ""
+    mf = re.search(r"cargo test[^\n]*--features (\S+)[^\n]*--test " + re.escape(test), readme)
+    if mf: feat = f" --features {mf.group(1)}"
+    rc, o = sh(f"cargo test -p {crate}{feat} --test {test} --offline -- --test-threads=1", cwd=W, env=env)
     for c in copied: os.remove(c)
     try: os.rmdir(d)
     except OSError: pass
